@@ -82,7 +82,7 @@ _MODEL_LIMITS = (
 
 PROPS = {
     "C13": {
-        "families": [fam("c13hist", 5000, 50000, seeds=4)],
+        "families": [fam("c13hist", 20000, 60000, seeds=4)],
         "rule": "one `assert` per history of 10..500 mixed DNS/web/MatchAll/cosmetic queries on engines sharing one storage "
                 "(each answer vs a fresh engine, derived-result calls on old results, re-serialisation at the end) plus one "
                 "`c13model` line replaying the abstract trace (candidate indices observed on fresh spying engines, match bits, "
@@ -105,7 +105,7 @@ PROPS = {
         ],
     },
     "C19": {
-        "families": [fam("c19fault", 200, 3000, seeds=4)],
+        "families": [fam("c19fault", 2500, 6000, seeds=4)],
         "rule": "one `assert` per scenario (File-backed lists on real temp files, history of 8..40 queries, fault = storage.Close() "
                 "or a closed descriptor before query k; all k when the budget allows): no panic, returned rules truly match "
                 "(linear-scan oracle) and are a subset of the fault-free retrieval, rules retrieved before k still served; plus one "
